@@ -233,18 +233,20 @@ def simple_front(prop, sub, rule, quick_cases, thorough_cases, extra_args=()):
     return handler
 
 
-def build_cli():
-    """peginator-cli from the tree (own target dir under the work directory)"""
+def build_cli(release=False):
+    """peginator-cli from the tree (own target dir under the work directory); release=True: the optimised build
+    without debug assertions (what `cargo install` and release build scripts use)"""
     tdir = os.path.join(ws.WORK, "repo_target")
     env = ws.cargo_env()
     env["CARGO_TARGET_DIR"] = tdir
     env["RUSTFLAGS"] = "-Awarnings"
-    p = subprocess.run(["cargo", "build", "--offline", "-p", "peginator-cli", "--manifest-path", os.path.join(ws.REPO, "Cargo.toml")],
+    p = subprocess.run(["cargo", "build", "--offline", "-p", "peginator-cli", "--manifest-path", os.path.join(ws.REPO, "Cargo.toml")]
+                       + (["--release"] if release else []),
                        env=env, stdout=subprocess.PIPE, stderr=subprocess.PIPE, text=True)
     if p.returncode != 0:
         log(p.stderr[-2000:])
         return None
-    return os.path.join(tdir, "debug", "peginator-cli")
+    return os.path.join(tdir, "release" if release else "debug", "peginator-cli")
 
 
 def run_c15(prop, tier, seed):
@@ -398,6 +400,9 @@ def run_c16(prop, tier, seed):
     cli = build_cli()
     if cli is None:
         return 2
+    cli_rel = build_cli(release=True)
+    if cli_rel is None:
+        return 2
     front = ws.tool("front")
     n = 40 if tier == "quick" else 400
     K = 8 if tier == "quick" else 16
@@ -461,6 +466,15 @@ def run_c16(prop, tier, seed):
                 if len(hdr) < 2 or hdr[1] != lib_hdr[1]:
                     viol(g, "cli", "CRC line of the command-line tool's header differs", lib_hdr[1], hdr[1] if len(hdr) > 1 else "")
             cls("cli_route")
+            # the same tool built with --release (no debug assertions, optimised): same bytes
+            p2 = subprocess.run([cli_rel] + cargs + [g["file"]], stdout=subprocess.PIPE, stderr=subprocess.PIPE, timeout=120)
+            evaluations += 1
+            if p2.returncode != 0:
+                viol(g, "cli-release", "release build of the command-line tool failed on an accepted grammar", "status 0", "status %d" % p2.returncode)
+            elif _strip_header(p2.stdout.decode())[1].rstrip("\n") != lib_code.rstrip("\n"):
+                viol(g, "cli-release", "code printed by the release build of the command-line tool differs from the library's (debug build)",
+                     lib_code[:300], _strip_header(p2.stdout.decode())[1][:300])
+            cls("cli_release_route")
         # build-script route
         if lib_code is not None:
             for prefix in ("", "use std::fmt;\n// second line"):
@@ -558,7 +572,8 @@ HANDLERS["C16"] = run_c16
 # ------------------------------------------------------------------------------------------------
 C17_RULE = ("per run, from the working tree: stage 2 = the tree's generator on grammar.ebnf; a copy of codegen/ with generated.rs replaced by stage 2 is "
             "built as a second crate and run on grammar.ebnf -> stage 3; stage 2 must equal stage 3 byte for byte; the CRC header line of the shipped "
-            "generated.rs must match grammar.ebnf. Generated differential: the shipped front end and the stage-2 front end, linked into one binary, read "
+            "generated.rs must match grammar.ebnf; regenerating through the command-line tool (as bootstrap.sh does), debug and --release build, in 6 (24) "
+            "fresh processes each, must give the bytes of stage 2. Generated differential: the shipped front end and the stage-2 front end, linked into one binary, read "
             "every .ebnf file of the repository and generated grammar texts of all classes (valid in canonical and random layouts, restriction violators, "
             "token-level mutations, hostile identifiers, include cycles, nesting, arbitrary strings): both must return the same Debug rendering of Grammar "
             "or the same ParseError (position + specifics). Token equality shipped vs stage 2 is recorded as information. Non-trivial = text parses to >= 3 "
@@ -587,6 +602,29 @@ def run_c17(prop, tier, seed):
     if not crc_ok:
         violations.append(dict(property="C17", kind="bootstrap", signature="shipped_crc", message="the CRC line of the shipped generated.rs does not match grammar.ebnf",
                                expected=hdr[1] if len(hdr) > 1 else "", observed=shipped_hdr[1] if len(shipped_hdr) > 1 else ""))
+    # the regeneration as bootstrap.sh does it - through the command-line tool - in fresh processes, with the debug and
+    # the release build of the tool: always the bytes of stage 2
+    cli_runs = 0
+    for rel in (False, True):
+        cli = build_cli(release=rel)
+        if cli is None:
+            return 2
+        for k in range(6 if tier == "quick" else 24):
+            pc = subprocess.run([cli, ebnf], stdout=subprocess.PIPE, stderr=subprocess.PIPE, text=True, timeout=300)
+            cli_runs += 1
+            which = "release" if rel else "debug"
+            if pc.returncode != 0:
+                violations.append(dict(property="C17", kind="bootstrap", signature="cli_regeneration_fails:" + which,
+                                       message="the %s build of the command-line tool cannot regenerate the grammar parser from grammar.ebnf" % which,
+                                       expected="status 0", observed="status %d %s" % (pc.returncode, pc.stderr[-200:])))
+                break
+            if _strip_header(pc.stdout)[1].rstrip("\n") != stage2.rstrip("\n"):
+                got = _strip_header(pc.stdout)[1]
+                i = next((i for i, (a, b) in enumerate(zip(got, stage2)) if a != b), min(len(got), len(stage2)))
+                violations.append(dict(property="C17", kind="bootstrap", signature="cli_regeneration_differs:" + which,
+                                       message="regenerating from grammar.ebnf with the %s build of the command-line tool (fresh process %d) gives other code than the library route" % (which, k),
+                                       expected=stage2[max(0, i - 80):i + 120], observed=got[max(0, i - 80):i + 120]))
+                break
     # informational: shipped file == rustfmt(stage 2) (bootstrap.sh pipes the CLI output through rustfmt)
     tokens_equal = None
     try:
@@ -625,7 +663,7 @@ serde_json = "1"
         ws.write_if_changed(os.path.join(drv, "src/main.rs"), f.read())
     ws.materialise()
     bp = ws.cargo(["build", "--offline", "-p", "c17drv"], capture=True, timeout=1800)
-    evaluations = 2
+    evaluations = 2 + cli_runs
     infra = None
     cov_extra = dict(stage2_bytes=len(stage2), shipped_tokens_equal_stage2=tokens_equal, shipped_crc_matches=crc_ok)
     dj = None
